@@ -49,7 +49,6 @@ struct Mat_exec {
       unsigned a = (unsigned)(op.arg(1) % s.ncols), b = (unsigned)(op.arg(2) % s.ncols);
       if (op.name == "m_add") {
         if (a == b) return false;
-        if constexpr (Opt::has_column_compression) { if (m.is_zero_column(b) || (m.get_column(a) == m.get_column(b))) return false; }  // C09-KF1 / same class
         m.add_to(a, b); return true;
       }
       if (op.name == "m_zero") { if constexpr (!Opt::has_column_compression) { unsigned row = (unsigned)(op.arg(3) % NR); if (Opt::has_column_and_row_swaps && !row_known(m, s, row)) return false; m.zero_entry(b, row); return true; } else return false; }
